@@ -105,6 +105,26 @@ if mode == 'faults':
                         'after_len': None if after is None else len(after), 'prior_len': None if prior is None else len(prior)})
             if os.path.exists(path):
                 os.remove(path)
+    # texts with every kind of line boundary Unicode knows (all legal XML characters): the file must hold declaration + to_string() byte for byte
+    for ti, text in enumerate(['line\u2028separator', 'paragraph\u2029separator', 'next\x85line', 'carriage\rreturn', 'new\nline', 'tab\tstop', 'mixed \u2028\r\n\x85 end',
+                               'astral \U0001D11E clef', '<&>"\'']):
+        s, _ = make_score(text=text)
+        path = os.path.join(d, 't_%d.xml' % ti)
+        try:
+            expected = (DECL + s.to_string()).encode('utf-8')
+            exp_raise = None
+        except Exception as ex:
+            expected, exp_raise = None, type(ex).__name__
+        try:
+            s.write(path)
+            raised = None
+        except Exception as ex:
+            raised = type(ex).__name__
+        after = open(path, 'rb').read() if os.path.exists(path) else None
+        out.append({'break_at': 'text:%r' % text, 'prior': 'absent', 'raised': raised, 'to_string_raises': exp_raise, 'untouched': after is None,
+                    'exact': (after == expected) if expected is not None else None, 'after_len': None if after is None else len(after), 'prior_len': None})
+        if os.path.exists(path):
+            os.remove(path)
     os.rmdir(d)
     res['faults'] = out
 else:
